@@ -90,6 +90,10 @@ PAYLOADS = [
     'orders[0].__setitem__("x", 1)', 'orders[0].__delitem__("item")', 'txn.description.__class__', 'field.kind.__class__',
     'field.kind.format', 'field.__dict__', 'field.__setattr__', 'txn.__setattr__("amount", 1)', 'txn.__init__()', 'txn.from_transaction',
     'txn.__slots__', 'txn.__module__', 'txn.__doc__', 'description.__doc__', 'abs.__doc__', 'amount.__doc__',
+    # harmless expressions whose evaluation converts or caches something: the parsed expression must come out unchanged
+    'date >= "2025-01-01"', 'txn.date < "2026-01-01"', 'date == "2025-12-31"', '"2025-01-01" <= date', 'field.date != "2025-12-31"',
+    '[r.n for r in orders if date > "2020-01-01"]', 'regex("A.FA") and regex("A.FA")', 'extract("(\\d+)") == "123"',
+    'amount > 50 and amount > "50"', 'description == "APLPAY ALFA STORE #123"', 'month == "12"', '(x := "2025-01-01") and date > x',
 ]
 
 
